@@ -87,6 +87,11 @@ Finish with the worktree clean (`git checkout -- .`). Report briefly.
 
 HINTS = ["one of them in the Jinja templates or the code they generate, the other in the parser",
          "one of them in how names / references / dependencies are handled, the other in how values / types / media types are handled"]
+FOCI2 = ["how request parameters and bodies are turned into httpx arguments in the generated endpoint functions (endpoint_macros.py.jinja, property templates' transform / transform_header macros): restructure, rename generated locals consistently with the reserved-name handling, change comments",
+         "the generated Client / AuthenticatedClient (client.py.jinja) and the errors / types modules: docstrings, attribute ordering, helper extraction - behaviour of every public method unchanged",
+         "diagnostics: every message text produced under parser/ (errors.py, openapi.py, responses.py, bodies.py, properties/*): reword, add context such as the offending value, restructure how details are built - levels and which item each diagnostic identifies unchanged",
+         "Project.build and its helpers in openapi_python_client/__init__.py and cli.py: refactor the order-insensitive parts, extract helpers, improve messages - the order of file-system effects that matters (existing-directory check before any write, what is removed before regeneration) unchanged",
+         "utils.py naming helpers and parser/properties/schemas.py / model_property.py internals: faster or clearer implementations with IDENTICAL results for every input (prove or exhaustively test equivalence)"]
 FOCI = ["the model templates (templates/model.py.jinja, templates/property_templates/*, types.py.jinja, enum templates)",
         "the endpoint and client templates (endpoint_module.py.jinja, endpoint_macros.py.jinja, client.py.jinja, errors, package __init__ files, README/pyproject templates)",
         "parser/properties/* (schemas.py, model_property.py, merge_properties.py, union.py, enum/literal enum, list, scalar kinds, __init__.py)",
@@ -106,10 +111,11 @@ def main():
     if a[0] == "--benign":
         root, n = a[1], int(a[2])
         allprops = "\n".join(f"  {p['id']}: {p['title']}\n      {p['statement']}" for p in PROPS.values())
-        for i in range(1, n + 1):
+        first = int(a[3]) if len(a) > 3 else 1          # tools/mkround.py --benign <wtroot> <n> [first index]
+        for i in range(first, first + n):
             wt = f"{root}/B{i}"
             worktree(wt)
-            open(f"{root}/B{i}.prompt.txt", "w").write(BENIGN.format(wt=wt, allprops=allprops, focus=FOCI[(i - 1) % len(FOCI)]))
+            open(f"{root}/B{i}.prompt.txt", "w").write(BENIGN.format(wt=wt, allprops=allprops, focus=(FOCI + FOCI2)[(i - 1) % len(FOCI + FOCI2)]))
             print(f"{root}/B{i}.prompt.txt")
         return
     root, x, y, ids = a[0], a[1], a[2], a[3:] or sorted(PROPS)
